@@ -14,7 +14,7 @@ RULE = ('random version tables (both strategies, flat/composite keys, default/cu
         'that equal neighbours and A,B,A / A,B,A,A patterns are frequent, first versions that are UPDATEs; vacuum(session, '
         'Article) is called (and, on a joined-table hierarchy TextItem <- Article whose rows are loaded into both version tables, '
         'vacuum(session, TextItem) with the BASE class, versions of subclass entities often differing only in the child '
-        'table\'s column), session.deleted recorded, the session committed and the table read back. Non-trivial: some '
+        'table\'s column), session.deleted recorded, the session committed and the table read back; vacuum is then run a second time and must leave the table as it is. Non-trivial: some '
         'entity with >= 3 versions containing a value sequence that returns to an earlier value, or composite keys whose '
         'first column coincides. Distinct: hash of the canonical input.')
 ASSUMPTIONS = ['naturally_equivalent (SQLAlchemy-Utils) compares every mapped non-primary-key column of the version class']
@@ -186,7 +186,12 @@ def _observe(env, cfg, rows, case=None):
         deleted = sorted([r['key'], r['tx']] for r in rows if (tuple(r['key']), r['tx']) not in left)
         if any(p_ not in deleted for p_ in pending):
             return dict(deleted=deleted, after=after, exc='session.deleted names a row that is still there: %s' % pending)
-        return dict(deleted=deleted, after=after, exc=None)
+        # a second run over what the first one left (the model proves it deletes nothing)
+        vacuum(s, env.Article, **({'yield_per': yp} if yp else {}))
+        s.commit()
+        after2 = read_joined(env, cfg) if joined else T.read_rows(env, cfg)
+        again = sorted((tuple(r['key']), r['tx']) for r in after2) != sorted((tuple(r['key']), r['tx']) for r in after)
+        return dict(deleted=deleted, after=after, exc=None, again=again)
     except Exception as e:
         s.rollback()
         return dict(deleted=[], after=[], exc='%s: %s' % (type(e).__name__, str(e)[:200]))
@@ -225,9 +230,9 @@ def run_impl(cases):
 
 
 def encode(case, obs):
-    return '{| c19_tbl := %s; c19_deleted := %s; c19_after := %s; c19_exc := %s |}' % (
+    return '{| c19_tbl := %s; c19_deleted := %s; c19_after := %s; c19_again := %s; c19_exc := %s |}' % (
         T.gtable(case['rows']), glist(obs['deleted'], lambda d: gpair(glist(d[0]), gZ(d[1]))),
-        T.gtable(obs['after']), gbool(obs['exc'] is not None))
+        T.gtable(obs['after']), gbool(bool(obs.get('again'))), gbool(obs['exc'] is not None))
 
 
 def nontrivial(case, obs):
